@@ -74,9 +74,9 @@ func nearMisses(name string) []string {
 		c[0] ^= 0x20 // case change of the first byte
 		add(string(c))
 	}
-	add(name + "x")               // one byte appended
-	add(name + "\x00x")           // padding-like byte then non-zero
-	add(name + "\x00\x00\x00x")   // several padding-like bytes then non-zero
+	add(name + "x")             // one byte appended
+	add(name + "\x00x")         // padding-like byte then non-zero
+	add(name + "\x00\x00\x00x") // several padding-like bytes then non-zero
 	add(name + strings.Repeat("\x00", 31) + "x")
 	add("x" + name)
 	add(strings.ToUpper(name))
@@ -176,7 +176,9 @@ func TestEveryLength(t *testing.T) {
 				}
 			}
 		}
-		s.Sample(func() any { return map[string]any{"length": n, "blocks": blocks(n), "wire_length": len(req), "name": clip(name)} })
+		s.Sample(func() any {
+			return map[string]any{"length": n, "blocks": blocks(n), "wire_length": len(req), "name": clip(name)}
+		})
 	}
 	// block counts must be distinguishable (strictly increasing size), otherwise the law above is vacuous
 	var bs []int
@@ -286,6 +288,8 @@ func TestDrawnNames(t *testing.T) {
 			}
 			s.Class("near-miss-requested")
 		}
-		s.Sample(func() any { return map[string]any{"name": clip(name), "length": n, "second_length": n2, "wire_length": len(req)} })
+		s.Sample(func() any {
+			return map[string]any{"name": clip(name), "length": n, "second_length": n2, "wire_length": len(req)}
+		})
 	})
 }
